@@ -93,3 +93,15 @@ def genBytes (seed : Nat) (n : Nat) (period : Nat := 0) : List UInt8 := Id.run d
   return out.toList
 
 end Driver
+
+namespace Driver
+
+/-- data source token: `h:<hex>` | `g:<seed>:<n>` | `p:<seed>:<n>:<period>` -/
+def parseSrc (s : String) : Option (List UInt8) :=
+  match s.splitOn ":" with
+  | ["h", hx] => hexToBytes hx
+  | ["g", seed, n] => do let a ← seed.toNat?; let b ← n.toNat?; pure (genBytes a b)
+  | ["p", seed, n, per] => do let a ← seed.toNat?; let b ← n.toNat?; let c ← per.toNat?; pure (genBytes a b c)
+  | _ => none
+
+end Driver
